@@ -572,6 +572,13 @@ class SpecCtx:
                 if a0[0] == "id" and getattr(self, "token_obj", None) is not None:
                     return self.eng.token_value(self, self.token_obj[0], a0[1])
                 raise SpecError("holds(x.token) expected")
+            if n == "ismethod":     # ismethod(f, recv, M): f is the method value recv.M
+                fv = self.eval(args[0])
+                rv = self.eval(args[1])
+                mname = self.flat(args[2])
+                if not isinstance(fv, FuncV) or not fv.bound or not fv.bound.endswith("." + mname) or not fv.bindings:
+                    return z3.BoolVal(False)
+                return to_bool(self.eq(fv.bindings[0], rv))
             if n == "held":
                 p = self.eval_addr(args[0])
                 return z3.BoolVal(self.eng.lock_key(st, p) in [h[0] for h in st.held])
